@@ -128,11 +128,16 @@ package main
 //@   ensures fits: 2 <= result.len && pos + result.len <= len(buf)
 //@   ensures closed: buf[pos + result.len - 1] == '"'
 //@   ensures kind: result.ttype == New_TokenType_STRING
+//@   ensures C11 ends-at-first-unescaped-quote: !esc(buf, pos + 1, pos + result.len - 1) && (forall k int :: pos + 1 <= k && k < pos + result.len - 1 && buf[k] == '"' ==> esc(buf, pos + 1, k))
+//@   ghost e1 bool                -- names the parity of the escaped position (a term for the solver, nothing more)
+//@   at before call bb.WriteByte#1: e1 = esc(buf, pos + 1, pos + i)
 //@   ensures C11 verbatim-len: len(result.stringVal) == result.len - 2
 //@   ensures C11 verbatim: forall k int :: 0 <= k && k < result.len - 2 ==> result.stringVal[k] == buf[pos + 1 + k]
 //@   loop 0:
 //@     invariant bounds: 1 <= i && pos + i <= len(buf)
 //@     invariant cur: cur.begin == pos && cur.ttype == New_TokenType_STRING
+//@     invariant normal-state: !esc(buf, pos + 1, pos + i) && !esc(buf, pos + 1, pos + 1)
+//@     invariant quotes-escaped: forall k int :: pos + 1 <= k && k < pos + i && buf[k] == '"' ==> esc(buf, pos + 1, k)
 //@     invariant copied-len: len(bb) == i - 1
 //@     invariant copied: forall k int :: 0 <= k && k < i - 1 ==> bb[k] == buf[pos + 1 + k]
 //@     decreases len(buf) - (pos + i)
@@ -148,8 +153,16 @@ package main
 //@   ensures closed: buf[pos + result.len - 1] == '`'
 //@   ensures kind: result.ttype == New_TokenType_STRING
 //@   ensures first-backtick: forall k int :: 1 <= k && k < result.len - 1 ==> buf[pos + k] != '`'
+//@   ghost offs map[int]int       -- offs[k]: length of the output after the first k characters of the body
+//@   ghost-assume offs0: offs[0] == 0
+//@   ensures C11 reescaped-len: len(result.stringVal) == offs[result.len - 2] && offs[0] == 0
+//@   ensures C11 reescaped: forall k int :: 0 <= k && k < result.len - 2 ==> raw_piece_ok(result.stringVal, offs[k], offs[k + 1], buf[pos + 1 + k])
+//@   at endbody loop 0: offs[i - 1] = len(bb)
 //@   loop 0:
 //@     invariant bounds: 1 <= i && pos + i <= len(buf)
+//@     invariant out-len: len(bb) == offs[i - 1] && offs[0] == 0
+//@     invariant out-mono: forall k int :: 0 <= k && k <= i - 1 ==> 0 <= offs[k] && offs[k] <= offs[i - 1]
+//@     invariant pieces: forall k int :: 0 <= k && k < i - 1 ==> raw_piece_ok(bb, offs[k], offs[k + 1], buf[pos + 1 + k])
 //@     invariant cur: cur.begin == pos && cur.ttype == New_TokenType_STRING
 //@     invariant no-backtick: forall k int :: 1 <= k && k < i ==> buf[pos + k] != '`'
 //@     decreases len(buf) - (pos + i)
@@ -214,12 +227,27 @@ package main
 //@   props C16 C11
 //@   mode strings=bytes slices=value
 //@   terminates
+//@   ghost np int                 -- number of pieces so far
+//@   ghost ip map[int]int         -- ip[k]: where piece k starts in the input
+//@   ghost op map[int]int         -- op[k]: where its translation starts in the format
+//@   ghost vi map[int]int         -- vi[k]: number of variables before piece k
+//@   ghost-assume start: np == 0 && ip[0] == 0 && op[0] == 0 && vi[0] == 0
 //@   panics may
+//@   ensures C11 covers: np >= 0 && ip[0] == 0 && op[0] == 0 && vi[0] == 0 && ip[np] == len(buf) && op[np] == len(result.E0) && vi[np] == len(result.E1)
+//@   ensures C11 pieces: forall k int :: 0 <= k && k < np ==> sip_piece_ok(buf, result.E0, result.E1, ip[k], ip[k + 1], op[k], op[k + 1], vi[k], vi[k + 1])
+//@   at endbody loop 0: ip[np + 1] = i
+//@   at endbody loop 0: op[np + 1] = len(res)
+//@   at endbody loop 0: vi[np + 1] = len(vars)
+//@   at endbody loop 0: np = np + 1
 //@   loop 0:
-//@     invariant bounds: 0 <= i && end == len(buf)
+//@     invariant bounds: 0 <= i && i <= end && end == len(buf)
+//@     invariant cur: np >= 0 && ip[0] == 0 && op[0] == 0 && vi[0] == 0 && ip[np] == i && op[np] == len(res) && vi[np] == len(vars)
+//@     invariant mono: forall k int :: 0 <= k && k <= np ==> 0 <= ip[k] && ip[k] <= ip[np] && 0 <= op[k] && op[k] <= op[np] && 0 <= vi[k] && vi[k] <= vi[np]
+//@     invariant pieces: forall k int :: 0 <= k && k < np ==> sip_piece_ok(buf, res, vars, ip[k], ip[k + 1], op[k], op[k + 1], vi[k], vi[k + 1])
 //@     decreases end - i
 //@   loop 1:
-//@     invariant bounds: 0 <= i && i <= end && end == len(buf)
+//@     invariant bounds: vbeg <= i && i <= end && end == len(buf) && vbeg >= 1
+//@     invariant no-close: forall j int :: vbeg <= j && j < i ==> buf[j] != '}'
 //@     decreases end - i
 
 // ---------------------------------------------------------------------------------------------
